@@ -1,4 +1,5 @@
 import ReplicatProofs.Lemmas.SymBasic
+import ReplicatProofs.Lemmas.SymSession
 /-!
 # C04 — damaged or substituted repository objects are never restored silently
 
@@ -11,6 +12,10 @@ original), swaps, replays under other names, removals and any combination of the
 Assumption (DESIGN.md §4): ideal hash and AEAD — `Term.hash` and `enc` are free constructors.  Which guards the code contains
 (`Gen.chunkDigestVerified`, `Gen.snapDigestVerified`, `Gen.snapTagChecked`, key-from-digest flags) is regenerated from the
 source on every run; the proofs discharge them by `decide`, so they stop compiling when a guard disappears.
+
+Sessions (`ReplicatModel/SymSession.lean`): the same reader as performed by ONE long-lived `Repository` object that issues many
+commands while the adversary changes the object map between them.  `Gen.chunkDigestCheckDominates` (the digest comparison is on
+every path to the writers) is what makes the object's state irrelevant; the `session_*` theorems discharge it by `decide`.
 -/
 namespace Replicat.C04
 open Replicat Replicat.Sym
@@ -121,6 +126,58 @@ theorem without_digest_check_swap_accepted :
     verifyChunk ⟨false, nil, noShared⟩ (digest (sec 1)) (sec 2) = .error .corrupted := by
   decide
 
+/-! ## sessions of one long-lived client object -/
+
+/-- **A long-lived client is a sequence of fresh clients.**  Whatever the `Repository` object has accepted in earlier commands
+(`cl`), and whatever object map each command meets (the adversary damages, heals and damages again between commands): the
+outcomes of a session are the outcomes the same commands give when each is issued by a new process. -/
+theorem session_is_stateless (p : Props) (cl : Client) (cmds : List Cmd) : session p cl cmds = runFresh p cmds := by
+  have h : Gen.chunkDigestCheckDominates = true := by decide
+  unfold session
+  rw [h]
+  exact runSession_dom p cmds cl
+
+/-- **Restore never succeeds with different content — in any state of the client.**  The statement of
+`restore_ok_implies_identical` for a restore issued by an object that has run ANY commands `before` (restores of this or other
+snapshots, listings) against ANY object maps, starting from any state `cl`. -/
+theorem session_restore_ok_implies_identical (p : Props) (cl : Client) (before : List Cmd) (A : Store) (n1 n2 : Term)
+    (contents : List Term) (data : Data) (out : List (Term × List Part))
+    (h : restoreC Gen.chunkDigestCheckDominates (clientAfter Gen.chunkDigestCheckDominates p cl before) p A
+      (snapshotName (snapshotStored p n1 n2 (encTable (contents.map digest)) (encData data))) = .ok out) :
+    ∀ w ∈ out, ∃ f ∈ data.files, w.1 = f.path ∧ honestParts contents (isort refLE f.refs) = some w.2 := by
+  have hd : Gen.chunkDigestCheckDominates = true := by decide
+  rw [hd, restoreC_dom] at h
+  exact restore_ok_implies_identical p A n1 n2 contents data out h
+
+/-- **The first command of an object is always fully checked** — wherever the comparison sits in the source.  (This is why a
+check that starts a new process for every command cannot see a comparison that an object's state bypasses.) -/
+theorem first_command_is_fully_checked (dom : Bool) (p : Props) (A : Store) (target : Term) :
+    restoreC dom Client.fresh p A target = restore p A target :=
+  restoreC_fresh dom p A target
+
+/-! a two-chunk, one-file snapshot in an unencrypted repository, and the same store with the two chunk objects swapped -/
+private def plP : Props := ⟨false, nil, noShared⟩
+private def plData : Data := ⟨7, [⟨sec 50, [⟨1, 2, 0, 3⟩, ⟨0, 1, 0, 4⟩], Term.hash (sec 60), pub 5⟩], nil⟩
+private def plStored : Term := snapshotStored plP nil nil (encTable [digest (sec 1), digest (sec 2)]) (encData plData)
+private def plLoc (c : Term) : Term := chunkLoc plP (digest c)
+private def plGood : Store :=
+  [(plLoc (sec 1), sec 1), (plLoc (sec 2), sec 2), (snapLoc plP (snapshotName plStored), plStored)]
+private def plSwapped : Store :=
+  [(plLoc (sec 1), sec 2), (plLoc (sec 2), sec 1), (snapLoc plP (snapshotName plStored), plStored)]
+
+set_option synthInstance.maxSize 512 in
+/-- **A comparison that the object's state can bypass is exactly the defect** (so the session theorems are not vacuous): a
+client that skips the comparison for digests it accepted before restores the intact repository, and then — the two chunk
+objects having been swapped in between — returns normally with the two chunks exchanged in the file; a fresh client, and the
+same client when the comparison dominates, report the corruption. -/
+theorem memoising_client_restores_swapped_chunks :
+    runSession false plP Client.fresh [.restore plGood (snapshotName plStored), .restore plSwapped (snapshotName plStored)] =
+      [.ok [(sec 50, [(sec 1, 0, 4), (sec 2, 0, 3)])], .ok [(sec 50, [(sec 2, 0, 4), (sec 1, 0, 3)])]] ∧
+    runSession true plP Client.fresh [.restore plGood (snapshotName plStored), .restore plSwapped (snapshotName plStored)] =
+      [.ok [(sec 50, [(sec 1, 0, 4), (sec 2, 0, 3)])], .error .corrupted] ∧
+    restore plP plSwapped (snapshotName plStored) = .error .corrupted := by
+  decide +kernel
+
 /-! non-vacuity: an honest two-chunk, one-file snapshot in an encrypted repository restores; with the two chunk objects
 swapped it fails with a decryption error; with the snapshot object replaced by garbage it fails as corrupted; with the snapshot
 object removed nothing is written. -/
@@ -144,6 +201,18 @@ example :
     restore exP exSwapped (snapshotName exStored) = .error .decryption ∧
     restore exP exGarbled (snapshotName exStored) = .error .corrupted ∧
     restore exP (exGood.take 2) (snapshotName exStored) = .ok [] := by
+  decide +kernel
+
+/-! sessions, non-vacuity: in the ENCRYPTED repository even the memoising client is stopped by the AEAD (the key is derived from
+the expected digest); through the session of the code as it is, the swapped store is rejected after any number of good restores. -/
+set_option synthInstance.maxSize 512 in
+example :
+    runSession false exP Client.fresh [.restore exGood (snapshotName exStored), .restore exSwapped (snapshotName exStored)] =
+      [.ok [(sec 50, [(sec 1, 0, 4), (sec 2, 0, 3)])], .error .decryption] ∧
+    session exP Client.fresh [.restore exGood (snapshotName exStored), .list exGarbled (snapshotName exStored),
+        .restore exGood (snapshotName exStored), .restore exSwapped (snapshotName exStored)] =
+      [.ok [(sec 50, [(sec 1, 0, 4), (sec 2, 0, 3)])], .error .corrupted,
+       .ok [(sec 50, [(sec 1, 0, 4), (sec 2, 0, 3)])], .error .decryption] := by
   decide +kernel
 
 end Replicat.C04
